@@ -54,6 +54,8 @@ func removeGate(file string) {
 	<-release
 }
 
+const raceDeadline = 8 * time.Second
+
 // runRace: two concurrent TruncateUptoTx calls on a store with several value logs must both return
 // ("repeated or concurrent truncation is harmless").
 func runRace(seed int64, dir string, runs int, res *vh.Result) {
@@ -91,7 +93,7 @@ func runRace(seed int64, dir string, runs int, res *vh.Result) {
 			disarmRemoveGate()
 			res.Count("race:attempts", 1)
 			returned := 0
-			timeout := time.After(hangDeadline)
+			timeout := time.After(raceDeadline)
 		wait:
 			for returned < 2 {
 				select {
@@ -112,10 +114,10 @@ func runRace(seed int64, dir string, runs int, res *vh.Result) {
 			if returned < 2 {
 				c.hung = true
 				res.Violate(sigTruncHang, fmt.Sprintf("%d value logs: TruncateUptoTx(%d) and TruncateUptoTx(%d) run concurrently; call 1 holds %s, call 2 holds %s (each locked by fetchVLog and kept until return); %d of 2 calls returned within %v",
-					m, n1, n2, first, second, returned, hangDeadline),
+					m, n1, n2, first, second, returned, raceDeadline),
 					map[string]interface{}{"valueLogs": m, "fileSize": 64, "txs": ntx, "calls": []uint64{n1, n2}, "held": []string{first, second},
 						"goroutines": goroutineDump(), "how": "harness/cmd/c14 -mode race (FRemove hook used as gate)"})
-				continue // the store is stuck: leave it
+				break // the store is stuck: leave it; one reproduction per configuration is enough
 			}
 			fs := c.validateAfterRace(n1)
 			for _, f := range fs {
